@@ -646,6 +646,11 @@ func (sa *Application) AddAllocationAsk(ask *Allocation) error {
 	if ask.IsAllocated() || resources.IsZero(ask.GetAllocatedResource()) {
 		return fmt.Errorf("invalid ask added to app %s: %v", sa.ApplicationID, ask)
 	}
+	if sa.stateMachine.Is(Failing.String()) || sa.stateMachine.Is(Failed.String()) {
+		// a failing application only waits for its placeholders to be released: anything scheduled for it now would
+		// still be allocated when the application leaves the partition
+		return fmt.Errorf("ask %s cannot be added: application %s is %s", ask.GetAllocationKey(), sa.ApplicationID, sa.stateMachine.Current())
+	}
 	if ask.createTime.Before(sa.submissionTime) {
 		sa.submissionTime = ask.createTime
 	}
